@@ -10,3 +10,4 @@ import Scfg.Props.C13
 import Scfg.Props.C16
 import Scfg.Props.C09
 import Scfg.Props.C11
+import Scfg.Props.C12
